@@ -181,6 +181,7 @@ pub fn check(v: &View, vd: &mut Verdict) {
             vd.fail(format!("C06/bystander_hang/{:?}", o.what), format!("T died at {d}; {:?} on bystander {b} begun at {} never returned", o.what, o.begin));
         }
     }
+    super::c10::delayed_body_outlives_actor(v, vd, "C06");
     for (tag, msg) in &v.flags.foreign_panics {
         vd.fail("C06/panic", format!("task {tag} panicked: {msg}"));
     }
